@@ -27,15 +27,16 @@ viol="$(echo "$out" | grep -m1 '^minimised' | cut -c1-300)"; [ -n "$viol" ] || v
 echo "$P-$X: baseline=$base demo_with_exit=$dw demo_without_exit=$dwo check_exit=$code tier=$TIER :: $viol"
 if [ "$base" = pass ] && [ $dw -ne 0 ] && [ $dwo -eq 0 ]; then
   D="$V/seeded/$P-$X"; mkdir -p "$D"; cp "$IN/$X.diff" "$D/patch.diff"; cp "$demo" "$D/demo_test.go"
-  python3 - "$P" "$X" "$D" "$code" "$TIER" "$viol" "$IN/NOTES.md" "$tname" "$dir" <<'PY'
+  python3 - "$P" "$X" "$D" "$code" "$TIER" "$viol" "$IN/NOTES.md" "$tname" "$dir" "$CHK" <<'PY'
 import json,sys,re
-P,X,D,code,tier,viol,notes,tname,dir=sys.argv[1:]
+P,X,D,code,tier,viol,notes,tname,dir,chk=sys.argv[1:]
 txt=open(notes).read() if notes else ""
 m=re.split(r'(?m)^#+ .*\b(?:Change )?B\b.*$', txt)
 sect = txt
 json.dump({"property":P,"id":f"{P}-{X}","source":"sub-agent given only the property text and a scratch worktree",
  "demo":{"file":"demo_test.go","copy_to":dir,"test":tname,"fails_with_change":True,"passes_without":True},
  "baseline_tests_with_change":"402/402 stable tests pass",
+ "check_property":chk,
  "check":{"tier":tier,"exit":int(code),"detected":int(code)==1,"first_violation":viol},
  "what_was_run":[f"tools/seeded.sh {P} {X} {tier}  (scratch copy of /repo HEAD + patch: go build, tools/baseline.py = 402 stable tests, demo test with/without the patch, run.sh {P} {tier} with VERIF_REPO=<copy>)"],
  "needs_to_manifest":"see notes",
